@@ -1,6 +1,8 @@
 """C12 - unlabeled samples do not influence supervised models."""
 import numpy as np
-from sklearn.linear_model import LinearRegression, LogisticRegression, BayesianRidge
+from sklearn.linear_model import LinearRegression, LogisticRegression, BayesianRidge, SGDClassifier
+from sklearn.ensemble import RandomForestClassifier
+from sklearn.neural_network import MLPClassifier
 from sklearn.naive_bayes import GaussianNB
 from sklearn.neighbors import KNeighborsClassifier
 from sklearn.tree import DecisionTreeClassifier, DecisionTreeRegressor
@@ -61,6 +63,12 @@ LEARNERS = {
     "sk_lr": ("clf", lambda: SklearnClassifier(LogisticRegression(max_iter=300), classes=[0, 1, 2], random_state=0)),
     "sk_tree": ("clf", lambda: SklearnClassifier(DecisionTreeClassifier(random_state=0), classes=[0, 1, 2], random_state=0)),
     "sk_knn": ("clf", lambda: SklearnClassifier(KNeighborsClassifier(n_neighbors=1), classes=[0, 1, 2], random_state=0)),
+    "sk_sgd_warm": ("clf", lambda: SklearnClassifier(SGDClassifier(loss="log_loss", warm_start=True, max_iter=30, tol=None, random_state=0),
+                                                    classes=[0, 1, 2], random_state=0)),
+    "sk_rf_warm": ("clf", lambda: SklearnClassifier(RandomForestClassifier(n_estimators=3, warm_start=True, random_state=0),
+                                                   classes=[0, 1, 2], random_state=0)),
+    "sk_mlp_warm": ("clf", lambda: SklearnClassifier(MLPClassifier(hidden_layer_sizes=(4,), warm_start=True, max_iter=40, random_state=0),
+                                                    classes=[0, 1, 2], random_state=0)),
     "pwc": ("clf", lambda: ParzenWindowClassifier(metric_dict={"gamma": 0.7}, classes=[0, 1, 2], random_state=0)),
     "pwc_prior": ("clf", lambda: ParzenWindowClassifier(metric_dict={"gamma": 0.2}, class_prior=[1, 2, 0.5], classes=[0, 1, 2], random_state=0)),
     "skr_lin": ("reg", lambda: SklearnRegressor(LinearRegression(), random_state=0)),
@@ -147,6 +155,10 @@ def run_case(desc):
         w2 = w.copy()
         w2[~rowlab] = rng.choice([0.0, 1e6], size=w2[~rowlab].shape)
         variants["weights-of-unlabelled-perturbed"] = (X, y, w2)
+        if (~rowlab).any():
+            w3 = w.copy()
+            w3[~rowlab] = rng.choice([np.nan, np.inf, 5.0], size=w3[~rowlab].shape)
+            variants["weights-of-unlabelled-not-finite"] = (X, y, w3)
     # move unlabelled rows to other positions, labelled rows keep their relative order
     order_l = list(np.flatnonzero(rowlab))
     order_u = list(np.flatnonzero(~rowlab))
@@ -172,6 +184,31 @@ def run_case(desc):
             errors[vn] = "%s: %s" % (type(ex).__name__, str(ex)[:150])
         finally:
             steps.end()
+    if int(rowlab.sum()) >= 3 and kind != "multi":
+        first = np.flatnonzero(rowlab)[rng.permutation(int(rowlab.sum()))[: int(rowlab.sum()) // 2]]
+        y_part = np.where(np.isin(np.arange(n), first), y, np.nan)
+        est = make()
+        steps.begin()
+        try:
+            if w is None:
+                est.fit(X, y_part)
+                est.fit(X, y)
+            else:
+                est.fit(X, y_part, sample_weight=w)
+                est.fit(X, y, sample_weight=w)
+            results["labels-revealed-in-two-steps-on-one-object"] = _outputs(kind, est, Q)
+        except steps.StepBudgetExceeded as ex:
+            errors["labels-revealed-in-two-steps-on-one-object"] = "step budget: %s" % ex
+        except Exception as ex:
+            errors["labels-revealed-in-two-steps-on-one-object"] = "%s: %s" % (type(ex).__name__, str(ex)[:150])
+        finally:
+            steps.end()
+        variants["labels-revealed-in-two-steps-on-one-object"] = None
+    # a variant with non-finite weights may be rejected by input validation: that is not a verdict
+    nf = "weights-of-unlabelled-not-finite"
+    if nf in errors and any(t in errors[nf] for t in ("NaN", "nan", "inf", "finite")):
+        del errors[nf]
+        variants.pop(nf, None)
     contracts.count("C12.paired-fit-oracle", len(variants))
     viol = []
     comp = type(make()).__name__ + ("(%s)" % type(make().estimator).__name__ if hasattr(make(), "estimator") else "")
